@@ -82,7 +82,7 @@ func randomShape(r *core.Rand, n int) shape {
 
 // templates that make rare conditions common
 func templateShape(r *core.Rand) shape {
-	switch r.Intn(8) {
+	switch r.Intn(9) {
 	case 0: // short and long path to one file, with a tail below it
 		// 0->1->2->3->4 ; 0->5->3 ; (design experiment F-C05-1)
 		return shape{n: 6, name: "short-long", edges: [][]int{{1, 5}, {2}, {3}, {4}, {}, {3}}}
@@ -100,7 +100,7 @@ func templateShape(r *core.Rand) shape {
 		}
 		return s
 	case 5: // wide fan-out with shared leaves
-		n := r.Range(4, 9)
+		n := r.Range(4, 10)
 		s := shape{n: n, name: "fan", edges: make([][]int, n)}
 		for i := 1; i < n-1; i++ {
 			s.edges[0] = append(s.edges[0], i)
@@ -110,6 +110,8 @@ func templateShape(r *core.Rand) shape {
 	case 6: // two long chains meeting at several points
 		s := shape{n: 8, name: "ladder", edges: [][]int{{1, 4}, {2}, {3, 6}, {7}, {5}, {2, 6}, {7}, {}}}
 		return s
+	case 7: // two directories with byte-identical import blocks that mean different files
+		return shape{n: 5, name: "twin-dirs", edges: [][]int{{1, 2}, {3}, {4}, {}, {}}}
 	default: // grandchild can overtake a direct import
 		return shape{n: 5, name: "overtake", edges: [][]int{{1, 2}, {2, 3}, {4}, {2}, {}}}
 	}
@@ -132,9 +134,9 @@ func Gen(seed uint64, faulty bool) *Workload {
 	// family
 	f := r.Float()
 	switch {
-	case f < 0.06 && n >= 3:
-		w.Family = "divergent"
 	case f < 0.12 && n >= 3:
+		w.Family = "divergent"
+	case f < 0.20 && n >= 3:
 		w.Family = "conflict"
 	}
 
@@ -160,13 +162,20 @@ func Gen(seed uint64, faulty bool) *Workload {
 		}
 	}
 	w.RemoteV = []string{"v1", "master", "main", "develop", "v1"}[r.Intn(5)]
+	if w.Family == "divergent" {
+		w.RemoteV = []string{"master", "main", "develop"}[r.Intn(3)]
+	}
 
 	// paths
 	used := map[string]bool{}
 	for i := 0; i < n; i++ {
 		fs := &FileSpec{ID: i, Kind: "sysl", Remote: remote[i]}
-		for {
+		for try := 0; ; try++ {
 			name := fmt.Sprintf("f%d.sysl", i)
+			if i > 0 && try < 3 && r.Chance(0.3) {
+				// the same base name in different directories (or repo directories)
+				name = []string{"common.sysl", "model.sysl", "index.sysl"}[r.Intn(3)]
+			}
 			if remote[i] {
 				d := []string{"", "/dir", "/dir/sub"}[r.Intn(3)]
 				fs.Path = repoPrefix + d + "/" + name
@@ -185,10 +194,26 @@ func Gen(seed uint64, faulty bool) *Workload {
 		w.Files = append(w.Files, fs)
 	}
 
+	if sh.name == "twin-dirs" {
+		for i := range remote {
+			remote[i] = false
+		}
+		for i, p := range []string{"f0.sysl", "d1/index.sysl", "e/index.sysl", "d1/common.sysl", "e/common.sysl"} {
+			w.Files[i].Path, w.Files[i].Remote = p, false
+		}
+		if r.Chance(0.5) { // the twins on different levels: 0 -> 1 -> 2
+			sh.edges[0] = []int{1}
+			sh.edges[1] = []int{3, 2}
+		}
+	}
+
 	// foreign leaves: only files without imports, never the root
 	for i := 1; i < n; i++ {
 		if len(sh.edges[i]) == 0 && !remote[i] && r.Chance(0.25) {
 			k := []string{"pbjson", "textpb"}[r.Intn(2)]
+			if faulty && r.Chance(0.15) {
+				k = "dat" // an extension no importer recognises: an undetectable foreign format
+			}
 			// the OpenAPI importers run an arr.ai bundle (seconds per conversion): sampled sparsely
 			if r.Chance(0.03) {
 				k = []string{"swagger", "openapi3"}[r.Intn(2)]
@@ -204,6 +229,8 @@ func Gen(seed uint64, faulty bool) *Workload {
 				fs.Path = base + ".pb.json"
 			case "textpb":
 				fs.Path = base + ".textpb"
+			case "dat":
+				fs.Path = base + ".dat"
 			}
 			used[fs.Path] = true
 		}
@@ -212,7 +239,11 @@ func Gen(seed uint64, faulty bool) *Workload {
 	// imports with spellings
 	for i := 0; i < n; i++ {
 		for _, j := range sh.edges[i] {
-			w.Files[i].Imports = append(w.Files[i].Imports, spell(r, w, i, j))
+			is := spell(r, w, i, j)
+			if sh.name == "twin-dirs" && (j == 3 || j == 4) && w.Files[j].Kind == "sysl" {
+				is = ImportSpec{To: j, Spell: "common"} // identical text in both directories
+			}
+			w.Files[i].Imports = append(w.Files[i].Imports, is)
 		}
 	}
 
@@ -239,6 +270,11 @@ func Gen(seed uint64, faulty bool) *Workload {
 	}
 	if faulty {
 		planFaults(r, w)
+		for _, f := range w.Files {
+			if f.Kind == "dat" && faultFor(w, f.ID, "undetectable-format") == nil {
+				w.Faults = append(w.Faults, Fault{File: f.ID, Kind: "undetectable-format", Certain: true})
+			}
+		}
 	}
 	return w
 }
@@ -343,7 +379,30 @@ func makeDivergent(r *core.Rand, w *Workload) bool {
 	}
 	sort.Ints(cands)
 	if len(cands) == 0 {
-		return false
+		// make one: a second import line for some remote or foreign file
+		var ts []int
+		for _, f := range w.Files {
+			if f.ID != 0 && (f.Remote || f.Kind != "sysl" || w.Family == "conflict") && len(in[f.ID]) >= 1 {
+				ts = append(ts, f.ID)
+			}
+		}
+		if len(ts) == 0 {
+			return false
+		}
+		t := ts[r.Intn(len(ts))]
+		var ps []int
+		for _, f := range w.Files {
+			if f.ID != t && f.Kind == "sysl" && (!f.Remote || w.Files[t].Remote) {
+				ps = append(ps, f.ID)
+			}
+		}
+		if len(ps) == 0 {
+			return false
+		}
+		pf := ps[r.Intn(len(ps))]
+		w.Files[pf].Imports = append(w.Files[pf].Imports, spell(r, w, pf, t))
+		in[t] = append(in[t], ref{pf, len(w.Files[pf].Imports) - 1})
+		cands = []int{t}
 	}
 	t := cands[r.Intn(len(cands))]
 	rs := in[t]
@@ -375,9 +434,6 @@ func makeDivergent(r *core.Rand, w *Workload) bool {
 				// no version at all: the version check treats it like master/main/develop
 				im.Spell = tf.Path
 				im.Ver = ""
-				if w.Files[a.file].Remote {
-					return false
-				}
 			}
 			return true
 		}
@@ -421,6 +477,8 @@ paths:
 	case "pbjson":
 		return fmt.Sprintf(`{"apps": {"Foreign%d": {"name": {"part": ["Foreign%d"]}, "endpoints": {"E%d": {"name": "E%d"}}}}}`,
 			f.ID, f.ID, f.ID, f.ID)
+	case "dat":
+		return fmt.Sprintf("record %d of some format nobody knows\n", f.ID)
 	case "textpb":
 		return fmt.Sprintf("apps: {\n key: \"Foreign%d\"\n value: {\n  name: {\n   part: \"Foreign%d\"\n  }\n }\n}\n", f.ID, f.ID)
 	}
